@@ -799,6 +799,96 @@ def C19_reduction_kwargs_history_family(only_prod_default=False):
     return True, f"{n} reduction exports in one process declare the JAX result type"
 
 
+def C05_output_integer_types_family():
+    """declared element types of integer / bool / float16 results: programs whose lowering computes in a wider integer
+    than JAX (lax.scan with narrow-integer carries and stacked outputs, jax.random.bits of uint8/uint16, argmax/argmin,
+    comparisons, narrow-integer arithmetic, clip, where) returned directly; x64 off and on.  Each declared output type must
+    be the jax.eval_shape type, or INT64 for an integer result."""
+    import jax
+    import jax.numpy as jnp
+    from jax import lax
+    import jax2onnx
+    np2onnx = {"int8": 3, "int16": 5, "int32": 6, "int64": 7, "uint8": 2, "uint16": 4, "uint32": 12, "uint64": 13, "float32": 1, "float64": 11, "bool": 9, "float16": 10, "bfloat16": 16}
+
+    def scan_counter(x):
+        def step(c, _):
+            c = c + jnp.asarray(1, x.dtype)
+            return c, c
+        return lax.scan(step, x, None, length=3)
+
+    progs = [
+        ("scan counter int8", scan_counter, jax.ShapeDtypeStruct((), np.int8)),
+        ("scan counter uint8", scan_counter, jax.ShapeDtypeStruct((), np.uint8)),
+        ("scan counter int16", scan_counter, jax.ShapeDtypeStruct((), np.int16)),
+        ("argmax", lambda x: jnp.argmax(x, axis=-1), jax.ShapeDtypeStruct((2, 5), np.float32)),
+        ("compare", lambda x: x > 0, jax.ShapeDtypeStruct((2, 5), np.float32)),
+        ("int8 add", lambda x: x + x, jax.ShapeDtypeStruct((4,), np.int8)),
+        ("uint16 mul", lambda x: x * x, jax.ShapeDtypeStruct((4,), np.uint16)),
+        ("int16 clip", lambda x: jnp.clip(x, -3, 3), jax.ShapeDtypeStruct((4,), np.int16)),
+        ("where int8", lambda x: jnp.where(x > 0, x, -x), jax.ShapeDtypeStruct((4,), np.int8)),
+        ("float16 tanh", lambda x: jnp.tanh(x), jax.ShapeDtypeStruct((4,), np.float16)),
+        ("cast to int8", lambda x: x.astype(jnp.int8), jax.ShapeDtypeStruct((4,), np.float32)),
+        ("sum int16 unpromoted", lambda x: jnp.sum(x, promote_integers=False), jax.ShapeDtypeStruct((4,), np.int16)),
+    ]
+    start = bool(jax.config.jax_enable_x64)
+    n = 0
+    try:
+        for x64, double in ((False, False), (True, False), (False, True), (True, True)):
+            for what, fn, spec in progs:
+                try:
+                    jax.config.update("jax_enable_x64", double)       # the JAX result at the precision the export asks for
+                    want = jax.tree_util.tree_leaves(jax.eval_shape(fn, spec))
+                    jax.config.update("jax_enable_x64", x64)          # the host process may have either setting
+                    m = jax2onnx.to_onnx(fn, [spec], model_name="c05types", enable_double_precision=double)
+                except Exception:
+                    continue      # loud
+                outs = list(m.graph.output)
+                if len(outs) != len(want):
+                    return False, f"{what} (x64 {x64}, double {double}): {len(outs)} outputs for {len(want)} result leaves"
+                for k, (o, w_) in enumerate(zip(outs, want)):
+                    et = o.type.tensor_type.elem_type
+                    exp = np2onnx.get(np.dtype(w_.dtype).name)
+                    ok = et == exp or (np.dtype(w_.dtype).kind in "iu" and et == 7)
+                    if not ok:
+                        import onnx
+                        return False, f"{what} (host x64 {x64}, enable_double_precision {double}): output {k} declares {onnx.TensorProto.DataType.Name(et)}, JAX result is {np.dtype(w_.dtype).name}"
+                    n += 1
+    finally:
+        jax.config.update("jax_enable_x64", start)
+    return True, f"{n} declared output types are the JAX type (or INT64 for integers)"
+
+
+def C16_function_dim_without_origin_is_loud():
+    """C16: a symbolic dimension used inside an @onnx_function body that no input of the function carries (passed in by
+    value as a static keyword) has no origin inside the body: the export must raise, or give a well-formed model that agrees
+    with JAX for several bindings - never a body that reads a value of its caller"""
+    jax, jnp = _jax()
+    import jax2onnx
+    import onnxruntime as ort
+    from witnesses import _fnmods as F
+
+    def prog(x, y):
+        return F.scale_by_count(y, n=x.shape[0])
+    try:
+        m = jax2onnx.to_onnx(prog, [("b", 2), (3,)], model_name="c16dim")
+    except Exception as e:
+        return True, f"export raised {type(e).__name__} (loud)"
+    ok, why = _wellformed(m)
+    if not ok:
+        return False, f"the export returned a model instead of raising, and {why}"
+    so = ort.SessionOptions()
+    so.log_severity_level = 4
+    sess = ort.InferenceSession(m.SerializeToString(), so, providers=["CPUExecutionProvider"])
+    for b in (1, 2, 5):
+        x = np.ones((b, 2), np.float32)
+        y = np.asarray([1.0, 2.0, 3.0], np.float32)
+        got = sess.run(None, dict(zip([i.name for i in sess.get_inputs()], [x, y])))[0]
+        want = np.asarray(prog(jnp.asarray(x), jnp.asarray(y)))
+        if got.shape != want.shape or not np.allclose(got, want):
+            return False, f"b={b}: model gives {got.tolist()}, JAX {want.tolist()}"
+    return True, "agrees with JAX for b in {1,2,5}"
+
+
 def C03_function_identifiers_unique():
     """the same @onnx_function instantiated inside another function (2,3) and at top level (2,5): every
     function definition has its own (domain, name), the model passes the ONNX checker and agrees with JAX"""
@@ -1283,6 +1373,7 @@ ALL = {
     "D15": D15_forest_fold_stale_shape,
     "D16": D16_nchw_input_dtype_matches_plain,
     "C05_output_order_family": C05_output_order_family,
+    "C05_output_integer_types_family": C05_output_integer_types_family,
     "C04_dimexpr_family": C04_dimexpr_family,
     "C02_table_family": C02_table_family,
     "C06_fori_trip_counts": C06_fori_trip_counts, "C06_scan_arity_family": C06_scan_arity_family,
@@ -1294,7 +1385,7 @@ ALL = {
     "D32_prod_integer_promotion": lambda: C19_reduction_kwargs_history_family(only_prod_default=True),
     "D10_cumprod_lax": D10_cumprod_lax, "D10_cumprod_jnp": D10_cumprod_jnp, "D10_bitcast": D10_bitcast,
     "C11_ops_within_opset": C11_ops_within_opset, "C11_function_body_opset": C11_function_body_opset,
-    "C16_reverse_scan_is_loud": C16_reverse_scan_is_loud, "C16_unbound_output_is_loud": C16_unbound_output_is_loud,
+    "C16_reverse_scan_is_loud": C16_reverse_scan_is_loud, "C16_function_dim_without_origin_is_loud": C16_function_dim_without_origin_is_loud, "C16_unbound_output_is_loud": C16_unbound_output_is_loud,
     "C12_nchw_symbolic_dims": C12_nchw_symbolic_dims,
 }
 
